@@ -12,7 +12,7 @@ def run(ctx):
                 "impl_probe: bounds, ordering H<=G<=A, geometricMean closed form, constants, zeros, linear exactness on the real code")
     ctx.prove("C11")
     from suites import symsuite
-    run_suites(ctx, ["symbolic"], runner=symsuite.run_suite, relevant=symsuite.relevant_for(['linmean', 'arithmean']))
+    run_suites(ctx, ["symbolic"], runner=symsuite.run_suite, relevant=symsuite.relevant_for(['linmean', 'arithmean', 'harmmean', 'upwmean']))
     run_suites(ctx, ["means"])
     try:
         n = probes.probe_c11(ctx, pf)
